@@ -30,10 +30,11 @@ def diff_globals():
 
 
 def diff_case(left, right, form):
-    """left / right: lists of lines; form: 'array' | 'lf' | 'crlf' | 'parts'"""
+    """left / right: lists of lines; form: 'array' | 'lf' | 'crlf' | 'parts', or 'x/y' for different forms left / right"""
     from bare_script import execute_script
+    forms = form.split('/') if '/' in form else [form, form]
 
-    def inp(lines):
+    def inp(lines, form):
         if form == 'array':
             return list(lines), {'kind': 'array', 'v': [A.cps(x) for x in lines]}
         if form == 'parts':
@@ -41,8 +42,8 @@ def diff_case(left, right, form):
             return parts, {'kind': 'array', 'v': [A.cps(x) for x in parts]}
         t = ('\n' if form == 'lf' else '\r\n').join(lines)
         return t, {'kind': 'text', 'v': A.cps(t)}
-    lv, la = inp(left)
-    rv, ra = inp(right)
+    lv, la = inp(left, forms[0])
+    rv, ra = inp(right, forms[1])
     g = dict(diff_globals())
     g['left'] = lv
     g['right'] = rv
@@ -105,10 +106,10 @@ def run(ctx, replay=None):
         ctx.violation('design-level: MC_Diff violated', {'property': ctx.pid, 'mc': 'MC_Diff', 'out': r['out'][-3000:]})
     lists = [list(t) for k in range(0, n + 1) for t in itertools.product('abc', repeat=k)]
     jobs = []
-    forms = ['array', 'lf', 'crlf', 'parts']
+    forms = ['array', 'lf', 'crlf', 'parts', 'array/lf', 'crlf/array', 'lf/parts', 'lf/crlf']
     for i, l in enumerate(lists):
         for j, rr in enumerate(lists):
-            jobs.append((l, rr, forms[(i + j) % 4] if (l and rr) else 'array'))
+            jobs.append((l, rr, forms[(i + j) % len(forms)] if (l and rr) else 'array'))
     nexh = len(jobs)
     for _ in range(ctx.pick(1500, 20000)):
         k = rnd.randint(0, 40)
